@@ -27,9 +27,11 @@ class State:
 
 
 class Explorer:
-    def __init__(self, menu, table="d", max_states=2_000_000):
+    def __init__(self, menu, table="d", max_states=2_000_000, columns=None, roles=None):
         self.menu = menu
         self.table = table
+        self.init_columns = columns  # optional: start from a table description with other columns
+        self.init_roles = roles
         self.states = {}  # key -> State
         self.order = []  # keys in BFS order
         self.transitions = 0
@@ -42,9 +44,16 @@ class Explorer:
 
     def initial(self):
         hist = {"table": self.table, "steps": []}
-        ops = H.table_description(self.table)
-        cols = list(H.TABLES[self.table])
-        roles = dict(H.TABLE_ROLES[self.table])
+        if self.init_columns is not None:
+            hist["columns"] = list(self.init_columns)
+            hist["roles"] = dict(self.init_roles)
+            ops = H.table_description(self.table, self.init_columns)
+            cols = list(self.init_columns)
+            roles = dict(self.init_roles)
+        else:
+            ops = H.table_description(self.table)
+            cols = list(H.TABLES[self.table])
+            roles = dict(H.TABLE_ROLES[self.table])
         key = hashlib.sha1(H.canon(ops).encode()).hexdigest()
         return State(hist, ops, cols, roles, key, 0, [ops], [(cols, roles)])
 
@@ -65,7 +74,8 @@ class Explorer:
             else:
                 ncols = list(nops.column_names)
             key = hashlib.sha1(H.canon(nops).encode()).hexdigest()
-            nh = {"table": s.hist["table"], "steps": s.hist["steps"] + [step]}
+            nh = dict(s.hist)
+            nh["steps"] = s.hist["steps"] + [step]
             ns = State(nh, nops, ncols, nroles, key, s.depth + 1, s.prefixes + [nops], s.rstates + [(ncols, nroles)])
             yield step, ns, None
 
